@@ -276,11 +276,29 @@ pub fn recorded<T>(
     (r, log)
 }
 
+pub const PLAIN_CALL_BUDGET: usize = 60000;
+
+struct Budget;
+
+impl Interposer for Budget {
+    fn pre(&mut self, idx: usize, call: &pathrs::verif::Call) -> pathrs::verif::Action {
+        // (calls interposed at libc symbol level sit below an `extern "C"` frame: a panic cannot unwind through it)
+        if idx > PLAIN_CALL_BUDGET && !matches!(call.kind, "readlink_abs" | "close" | "dup") {
+            panic!("verif: call budget of {PLAIN_CALL_BUDGET} system calls exceeded (the operation left the tree or does not terminate)");
+        }
+        pathrs::verif::Action::Proceed
+    }
+    fn post(&mut self, _idx: usize, _call: &pathrs::verif::Call, _resp: &pathrs::verif::Resp) {}
+}
+
 pub fn run_recorded(
     root: &Root,
     op: &Op,
     interposer: Option<Box<dyn Interposer>>,
 ) -> (Outcome, Vec<(Call, Resp)>) {
+    // without an interposer of its own an operation still runs under a budget: an operation on a tree of a dozen entries
+    // that makes tens of thousands of system calls has left the tree (or does not terminate)
+    let interposer = interposer.or_else(|| Some(Box::new(Budget) as Box<dyn Interposer>));
     let (r, log) = recorded(interposer, || exec(root, op));
     (
         match r {
